@@ -32,12 +32,19 @@ POOL = {
     "stere_km": ({"proj": "stere", "lat_0": 90, "lon_0": 0, "ellps": "WGS84", "units": "km"}, "km", (-3e3, 3e3, -3e3, 3e3), 2e3),
     "laea_km": ("+proj=laea +lat_0=52 +lon_0=10 +x_0=4321000 +y_0=3210000 +ellps=GRS80 +units=km", "km",
                 (2.5e3, 6.5e3, 1.5e3, 5e3), 1e3),
+    # projected CRSs whose unit is neither metre nor kilometre (_get_proj_units keeps the unit name)
+    "lcc_usft": ("+proj=lcc +lat_1=30 +lat_2=60 +lat_0=45 +lon_0=10 +ellps=WGS84 +units=us-ft", "usft", (-9e6, 9e6, -6e6, 6e6), 4e6),
+    "tmerc_usft": ({"proj": "tmerc", "lat_0": 0, "lon_0": 15, "ellps": "GRS80", "units": "us-ft", "x_0": 1640416.667}, "usft",
+                   (8e5, 2.4e6, 1e6, 2.5e7), 6e5),
+    "epsg2264": ("EPSG:2264", "usft", (1.2e6, 2.8e6, 2e5, 9e5), 3e5),
+    "laea_ft": ("+proj=laea +lat_0=50 +lon_0=10 +ellps=WGS84 +units=ft", "ft", (-6e6, 6e6, -6e6, 6e6), 4e6),
 }
+# metres per projection unit
+METRES = {"m": 1.0, "km": 1000.0, "usft": 1200.0 / 3937.0, "ft": 0.3048}
 # additional CRSs only for dump/load (EPSG shorthand for PROJ dicts, other units, datum shifts)
 YAML_EXTRA = {
     "utm_str": ("+proj=utm +zone=33 +datum=WGS84", "m", (2.5e5, 7.5e5, 1e5, 8.5e6), 2e5),
     "utm_km": ("+proj=utm +zone=33 +datum=WGS84 +units=km", "km", (2.5e2, 7.5e2, 1e2, 8.5e3), 2e2),
-    "lcc_usft": ("+proj=lcc +lat_1=30 +lat_2=60 +lat_0=45 +lon_0=10 +ellps=WGS84 +units=us-ft", "usft", (-9e6, 9e6, -6e6, 6e6), 4e6),
     "geos": ({"proj": "geos", "h": 35785831.0, "lon_0": 0, "ellps": "WGS84"}, "m", (-2e6, 2e6, -2e6, 2e6), 1.5e6),
     "longlat_bessel": ({"proj": "longlat", "ellps": "bessel"}, "deg", (-175.0, 175.0, -60.0, 60.0), 25.0),
     "tmerc_towgs": ({"proj": "tmerc", "lat_0": 0, "lon_0": 9, "k": 1, "x_0": 3500000, "y_0": 0, "ellps": "bessel",
@@ -50,7 +57,7 @@ SETS = ["es", "crs", "cds", "uds", "crd", "ed", "ewh"]       # the seven descrip
 VIA = {"es": "from_extent", "crs": "from_circle", "crd": "from_circle", "cds": "from_area_of_interest", "uds": "from_ul_corner"}
 UT = {"deg": "UTdeg", "degrees": "UTdegrees", "m": "UTm", "meters": "UTmeters", "metres": "UTmetres", "km": "UTkm",
       "degree": "UTbaddeg"}
-CU = {"degrees": "Cdeg", "m": "Cm", "km": "Ckm"}
+UNAME = {"metre": "UNmetre", "meter": "UNmeter", "kilometre": "UNkilometre", "kilometer": "UNkilometer"}
 
 
 # ----------------------------------------------------------------------------------------------- generation
@@ -118,9 +125,14 @@ def unit_variants(r, kind, thorough):
     elif kind == "m":
         v = [("proj", 1.0, None, None), ("km_kw", 1e-3, "km", None), ("km_attr", 1e-3, None, "km"),
              ("m_kw", 1.0, r.choice(["m", "meters", "metres"]), None)]
-    else:
+    elif kind == "km":
         v = [("proj", 1.0, None, None), ("m_kw", 1e3, r.choice(["m", "meters", "metres"]), None), ("m_attr", 1e3, None, "m"),
              ("km_kw", 1.0, "km", None)]
+    else:       # feet: the grid is in feet, the description may be handed over in metres or kilometres
+        k = METRES[kind]
+        v = [("proj_ft_crs", 1.0, None, None), ("m_kw_ft_crs", k, r.choice(["m", "meters", "metres"]), None),
+             ("m_attr_ft_crs", k, None, r.choice(["m", "meters", "metres"])), ("km_kw_ft_crs", k / 1000.0, "km", None)]
+        return v if thorough else [v[0], v[1 + r.randrange(2)], v[3]] if r.random() < 0.5 else [v[0], v[1], v[2]]
     return v if thorough else [v[0], r.choice(v[1:])]
 
 
@@ -141,6 +153,15 @@ def f4(v):
 
 def opt(x, f=lambda s: s):
     return "None" if x is None else "(Some %s)" % f(x)
+
+
+def fpair(steps):
+    """PROJ's unitconvert step factors (at most two) as the model's pair; a missing step is the factor 1."""
+    steps = list(steps or [])
+    if len(steps) > 2:
+        steps = [float("nan"), float("nan")]       # outside the model: shows up as a mismatch
+    steps += [1.0] * (2 - len(steps))
+    return "(%s, %s)" % (fhex(steps[0]), fhex(steps[1]))
 
 
 def coq_param(p):
@@ -182,7 +203,7 @@ def coq_outcome(o):
 def modelled(case, obs):
     """Is the case inside the model's vocabulary (unit tokens, CRS unit names, well-formed lists)?"""
     f = obs["facts"]
-    if "crs_error" in f or f["crs_units"] not in CU:
+    if "crs_error" in f:
         return False
     if case.get("units") is not None and case["units"] not in UT:
         return False
@@ -205,7 +226,7 @@ def coq_case(case, obs):
     f = obs["facts"]
     fac = f.get("fac") or {}
     return "(%s, %s, %s, %s, %s, %s, %s, %s)" % (
-        "true" if f["geographic"] else "false", CU[f["crs_units"]], fhex(fac.get("km") or 1.0), fhex(fac.get("m") or 1.0),
+        "true" if f["geographic"] else "false", UNAME.get(f["unit_name"], "UNother"), fpair(fac.get("km")), fpair(fac.get("m")),
         coq_tbl(obs["fwd"]), coq_tbl(obs["inv"]), coq_args(case["args"], case.get("units")), coq_outcome(obs))
 
 
@@ -256,9 +277,9 @@ def run(ctx):
     r = ctx.rng
     T = ctx.thorough
     ctx.rule = ("random grids (log-uniform spans, shapes 1..300 (thorough 1..4000), 25% with a 1..10 side, 'nice' grids whose "
-                "resolution divides the extent exactly) on 13 CRSs (PROJ dicts laea/stere/merc/eqc/lcc/longlat, EPSG 4326/3857/32633/3035, "
-                "km-unit stere/laea), each described in the seven ways of the property text x unit variants (projection units, km / m "
-                "keyword, per-parameter DataArray units, metre synonyms, degrees on geographic CRSs), via create_area_def and the from_* "
+                "resolution divides the extent exactly) on 17 CRSs (PROJ dicts laea/stere/merc/eqc/lcc/longlat, EPSG 4326/3857/32633/3035, "
+                "km-unit stere/laea, US-survey-foot lcc/tmerc/EPSG:2264, international-foot laea), each described in the seven ways of the property text x unit variants (projection units, km / m "
+                "keyword, per-parameter DataArray units, metre synonyms, metres / kilometres on foot CRSs, degrees on geographic CRSs), via create_area_def and the from_* "
                 "classmethods; antimeridian-crossing and pole-centred grids; contradiction cases = consistent description + one extra "
                 "parameter perturbed by 1e-9..1 relative; all 64 subsets of the six parameters for missing information; degree "
                 "centre/radius/resolution on projected CRSs and malformed values for the correspondence only; dump/load of 1..6 "
@@ -406,8 +427,8 @@ def run(ctx):
                 f = r.choice([1.0, 1 + 1e-10, 1 + 1e-5, 0.999, 1.007, 1.013, 0.7, 1.5, 3.3])
                 args = {"area_extent": {"v": list(ext)}, "resolution": {"v": [d["resolution"][0] * f, d["resolution"][1] * r.choice([1.0, f])]}}
             elif what == "mixed":
-                k = {"m": 1e-3, "km": 1e3, "deg": 1.0}[kind]
-                u = {"m": "km", "km": "m", "deg": "deg"}[kind]
+                k = {"m": 1e-3, "km": 1e3, "deg": 1.0}.get(kind) or METRES[kind]
+                u = {"m": "km", "km": "m", "deg": "deg"}.get(kind, "m")
                 args = {"center": {"v": list(d["center"])}, "radius": {"v": [x * k for x in d["radius"]], "attr": u},
                         "resolution": {"v": [-x for x in d["resolution"]]}}
             elif what == "bad_units":
@@ -438,7 +459,8 @@ def run(ctx):
     ynames = list(POOL) + list(YAML_EXTRA)
     words = ["area", "Europe 1km", "desc: colon", "#hash", "quote's \"x\"", "null", "yes", "1234", "1e5", "ünï cödé", "a  b", "-dash",
              "[x]", "{y}", "multi\nline", " lead", "trail ", "*star", "&amp", "%p", "@at", "`tick", "true", "~", "0x1F", "1_000", "on"]
-    nfiles = ctx.n(80, 800)
+    falsy = ["", "0", "None", " ", "False", "0.0", "[]"]
+    nfiles = ctx.n(110, 800)
     for i in range(nfiles):
         n = 1 if i % 3 == 0 else r.randint(2, 6)
         areas, samples = [], []
@@ -451,7 +473,22 @@ def run(ctx):
                 if ext[0] >= ext[2] or ext[1] >= ext[3]:
                     ext = [ext[0], ext[1], ext[0] + 7.0, ext[1] + 5.0]
             ident = r.choice(["a%d" % ids[j], "area_%d" % ids[j], "%d" % ids[j], "x-%d.y" % ids[j], r.choice(words).strip() + "%d" % ids[j]])
-            areas.append({"id": ident, "description": r.choice(words) if r.random() < 0.7 else ident, "crs": (POOL.get(name) or YAML_EXTRA[name])[0],
+            desc = r.choice(words) if r.random() < 0.7 else ident
+            inject = None
+            # empty / falsy-looking strings are values like any other: ids, descriptions, proj_id; every load mode sees each
+            if j == 0 and i < 5 * len(falsy):
+                desc = falsy[i // 5]
+            elif r.random() < 0.15:
+                desc = r.choice(falsy)
+            if j == 0 and 5 * len(falsy) <= i < 10 * len(falsy):
+                inject = falsy[i // 5 - len(falsy)]
+            elif r.random() < 0.15:
+                inject = r.choice(falsy + ["pid", "proj 7", "ünï"])
+            if (j == n - 1 and 10 * len(falsy) <= i < 15 * len(falsy)) or r.random() < 0.05:
+                cand = falsy[(i // 5) % len(falsy)] if i < 15 * len(falsy) else r.choice(falsy)
+                if cand not in [a["id"] for a in areas]:
+                    ident = cand
+            areas.append({"id": ident, "description": desc, "crs": (POOL.get(name) or YAML_EXTRA[name])[0], "inject_proj_id": inject,
                           "extent": ext, "shape": list(shape), "np_extent": r.random() < 0.3, "name": name})
             h, w = shape
             smp = {(0, 0), (0, w - 1), (h - 1, 0), (h - 1, w - 1)}
@@ -482,7 +519,7 @@ def run(ctx):
         if cls == "sets":
             s = meta["set"]
             ctx.count("sets_%s_%s" % (s, meta["unit"]))
-            nontrivial = not (s == "es" and meta["unit"] == "proj")
+            nontrivial = not (s == "es" and meta["unit"].startswith("proj"))
             ctx.case(canon, nontrivial=nontrivial, sample={"description": s, "crs": name, "units": meta["unit"], "args": case["args"], "impl": o.get("extent"), "shape": o.get("shape")})
             want_ext, want_shape = meta["ext"], list(meta["shape"])
             snapped = pole_snapped(name, meta["d"], case["args"])
@@ -582,13 +619,17 @@ def run(ctx):
                     tag = "one" if n == 1 else "many"
                     epsg_short = f["to_epsg"] is not None and not (isinstance(a["crs"], (str, int)) and str(a["crs"]).upper().replace("EPSG:", "") == str(f["to_epsg"]))
                     rewrite = f["to_epsg"] is None and f["dict_units"] not in (None, "m")
-                    why = None
+                    why, sub = None, None
                     if b["kind"] != "area":
                         why = "loads as %s" % b["kind"]
                     elif b["id"] != a["id"]:
                         why = "area_id %r != %r" % (b["id"], a["id"])
                     elif b["description"] != a["description"]:
                         why = "description %r != %r" % (b["description"], a["description"])
+                        sub = "description"
+                    elif (b.get("proj_id") != a["inject_proj_id"]) if a.get("inject_proj_id") is not None else (b.get("proj_id") not in (None, "")):
+                        why = "proj_id %r != %r (proj_id entry of the file)" % (b.get("proj_id"), a.get("inject_proj_id"))
+                        sub = "proj_id"
                     elif b["shape"] != a["shape"]:
                         why = "shape %s != %s" % (b["shape"], a["shape"])
                     elif not rewrite and b["extent"] != orig["extent"]:
@@ -607,12 +648,15 @@ def run(ctx):
                             why = "loaded area != original although the CRS was dumped as written (crs equal: %s)" % b.get("crs_eq")
                     if why:
                         cls = "epsg_shorthand" if epsg_short else "unit_rewrite" if rewrite else "as_written"
+                        if sub:
+                            falsy_in = (a["description"] if sub == "description" else a["inject_proj_id"]) in ("", "0", "None", " ", "False", "0.0", "[]")
+                            cls = sub + (".falsy_string" if falsy_in else "")
                         ctx.add_failure("C13.yaml.roundtrip.%s.%s" % (cls, tag), "dump -> load (%s) of area %r on %s: %s" % (yc["mode"], a["id"], json.dumps(a["crs"]), why), replay)
-        # ---- dict-level correspondence text
-        if "parsed" in yo:
+        # ---- dict-level correspondence text (strings are tokens: one number per distinct observed string)
+        if "parsed" in yo and "parsed_loaded" in yo:
             entries = []
-            for k, (a, f, orig, parsed) in enumerate(zip(yc["areas"], yo["facts"], yo["orig"], yo["parsed"])):
-                t = yaml_texts(yi, k, a, f, orig, parsed)
+            for k, (a, f, orig, parsed, ploaded) in enumerate(zip(yc["areas"], yo["facts"], yo["orig"], yo["parsed"], yo["parsed_loaded"])):
+                t = yaml_texts(yi, k, a, f, orig, parsed, ploaded)
                 if t is None:
                     entries = None
                     break
@@ -621,12 +665,14 @@ def run(ctx):
             if entries is not None and not missing_region and "error" not in yo and len({a["id"] for a in yc["areas"]}) == n:
                 file_txt = "[" + "; ".join(e[1] for e in entries) + "]"
                 facts_txt = "[" + "; ".join(e[2] for e in entries) + "]"
-                regs = "[" + "; ".join(str(1000 * yi + ids.index(x)) for x in regions) + "]"
+                regs = "[" + "; ".join(str(tok(x)) for x in regions) + "]"
                 want = regions or ids
                 lo = []
                 for wid, b in zip(want, yo["loaded"]):
                     k = ids.index(wid)
-                    lo.append("(mk_loaded %d %d %s %s)" % (1000 * yi + k, desc_tok(yi, k, yc["areas"][k]), entries[k][3], coq_outcome(b)))
+                    lo.append("(mk_loaded %d %d %s %s %s)" % (tok(b.get("id")), tok(b.get("description")),
+                                                            "None" if b.get("proj_id") is None else "(Some %d)" % tok(b["proj_id"]),
+                                                            entries[k][3], coq_outcome(b)))
                 load_lines.append(("(%s, %s, %s, Ok [%s])" % (file_txt, regs, facts_txt, "; ".join(lo)), yc))
 
     # =============================================================================== correspondence
@@ -664,50 +710,54 @@ def run(ctx):
 
 
 # ----------------------------------------------------------------------------------------------- YAML dict text
-def desc_tok(yi, k, a):
-    return 1000 * yi + k if a["description"] == a["id"] else 1000 * yi + 500 + k
+TOKENS = {}
 
 
-def yaml_texts(yi, k, a, f, orig, parsed):
-    """Coq text of (dump case, parsed entry, loaded-CRS facts, projection entry) for area k of file yi; None when outside
-    the model's vocabulary (units other than m / km)."""
+def tok(v):
+    """A number standing for the string v (the model treats strings as opaque values; '' is one of them).
+    Non-strings (a YAML scalar that did not come back as a string) get their own tokens."""
+    return TOKENS.setdefault(repr(v), len(TOKENS) + 1)
+
+
+def yaml_texts(yi, k, a, f, orig, parsed, ploaded):
+    """Coq text of (dump case, parsed entry of the text that is loaded, loaded-CRS facts, projection entry) for area k
+    of file yi; None when outside the model's vocabulary (units other than m / km)."""
     units = f["dict_units"]
     if units is not None and units not in ("m", "km"):
         return None
-    if f.get("loaded_crs_units") not in CU:
-        return None
-    idt = 1000 * yi + k
-    dt = desc_tok(yi, k, a)
-    pent = "(PEpsg %d)" % f["to_epsg"] if f["to_epsg"] is not None else "(PDict %d)" % idt
+    ctok = 1000 * yi + k          # CRS token
+    pent = "(PEpsg %d)" % f["to_epsg"] if f["to_epsg"] is not None else "(PDict %d)" % ctok
     rec = "(@mk_area_rec float %d %d %d %s %s (%d, %d) %s)" % (
-        idt, dt, idt, opt(f["to_epsg"], lambda n: "%d" % n), opt(units, lambda u: UT[u]), a["shape"][0], a["shape"][1], f4(orig["extent"]))
-    # the parsed YAML of this area's dump, as the model's yval
-    if not isinstance(parsed, dict) or len(parsed) != 1:
-        obs = "(0, [])"
-    else:
-        (pid, body), = parsed.items()
-        obs = "(%d, %s)" % (idt if pid == a["id"] else -1, ydict(body, a, idt, dt, f))
+        tok(a["id"]), tok(a["description"]), ctok, opt(f["to_epsg"], lambda n_: "%d" % n_), opt(units, lambda u: UT[u]),
+        a["shape"][0], a["shape"][1], f4(orig["extent"]))
+
+    def entry(p):
+        if not isinstance(p, dict) or len(p) != 1:
+            return "(0, [])"
+        (pid, body), = p.items()
+        return "(%d, %s)" % (tok(pid), ydict(body, ctok, f))
     lf = f.get("loaded_fac") or {}
-    facts = "(%s, (%s, %s, %s, %s))" % (pent, "true" if f["loaded_geographic"] else "false", CU[f["loaded_crs_units"]],
-                                       fhex(lf.get("km") or 1.0), fhex(lf.get("m") or 1.0))
-    return ("(%s, %s)" % (rec, obs), obs, facts, pent)
+    facts = "(%s, (%s, %s, %s, %s))" % (pent, "true" if f["loaded_geographic"] else "false", UNAME.get(f.get("loaded_unit_name"), "UNother"),
+                                       fpair(lf.get("km")), fpair(lf.get("m")))
+    return ("(%s, %s)" % (rec, entry(parsed)), entry(ploaded), facts, pent)
 
 
 KEYS = {"description": "Kdescription", "projection": "Kprojection", "shape": "Kshape", "height": "Kheight", "width": "Kwidth",
-        "area_extent": "Karea_extent", "lower_left_xy": "Klower_left_xy", "upper_right_xy": "Kupper_right_xy", "units": "Kunits"}
+        "area_extent": "Karea_extent", "lower_left_xy": "Klower_left_xy", "upper_right_xy": "Kupper_right_xy", "units": "Kunits",
+        "proj_id": "Kproj_id", "area_id": "Karea_id"}
 
 
-def yv(v, a, idt, dt, f, key=None):
+def yv(v, ctok, f, key=None):
     if key == "projection":
         if isinstance(v, dict) and list(v.keys()) == ["EPSG"]:
             return "(YProj (PEpsg %d))" % v["EPSG"]
         ent = f["entry"]
         same = isinstance(v, dict) and json.dumps(v, sort_keys=True) == json.dumps(ent, sort_keys=True) and "units" not in v
-        return "(YProj (PDict %d))" % (idt if same else -1)
+        return "(YProj (PDict %d))" % (ctok if same else -1)
     if key == "units":
         return "(YUnits %s)" % UT[v] if v in UT else "YNull"
-    if key == "description":
-        return "(YStr %d)" % (dt if v == a["description"] else -1)
+    if key in ("description", "proj_id", "area_id"):
+        return "(YStr %d)" % tok(v) if isinstance(v, str) else "YNull"
     if isinstance(v, bool) or v is None:
         return "YNull"
     if isinstance(v, int):
@@ -715,14 +765,14 @@ def yv(v, a, idt, dt, f, key=None):
     if isinstance(v, float):
         return "(YNum %s)" % fhex(v)
     if isinstance(v, list):
-        return "(YList [%s])" % "; ".join(yv(x, a, idt, dt, f) for x in v)
+        return "(YList [%s])" % "; ".join(yv(x, ctok, f) for x in v)
     if isinstance(v, dict):
-        return "(YDict %s)" % ydict(v, a, idt, dt, f)
+        return "(YDict %s)" % ydict(v, ctok, f)
     return "YNull"
 
 
-def ydict(d, a, idt, dt, f):
-    return "[" + "; ".join("(%s, %s)" % (KEYS.get(k, "Kother"), yv(v, a, idt, dt, f, key=k)) for k, v in d.items()) + "]"
+def ydict(d, ctok, f):
+    return "[" + "; ".join("(%s, %s)" % (KEYS.get(k, "Kother"), yv(v, ctok, f, key=k)) for k, v in d.items()) + "]"
 
 
 def replay(ctx, data):
